@@ -462,6 +462,10 @@ def inline_cases():
         dict(label="arg:bech32dec", pre=[], script="51", stack=["@bech32dec(bc1qw508d6qejxtdg4y5r3zarvary0c5xw7kv8f3t4)"], expect=("ok", [prog, "01"]), fl=""),
         dict(label="arg:sha256", pre=[], script="51", stack=["@sha256(0x01)"], expect=("ok", ["4bf5122f344554c53bde2ebb8cd2b7e3d1600ad631c385a5d7cce23c7785459a", "01"]), fl=""),
         dict(label="arg:decimal", pre=[], script="93", stack=["@7", "@300"], expect=("ok", ["3301"]), fl=""),
+        # stack items longer than a script may push (arguments are not subject to the 520-byte push limit): printed in full
+        dict(label="arg:521-byte-item", pre=[], script="61", stack=["ab" * 521], expect=("ok", ["ab" * 521]), fl=""),
+        dict(label="arg:700-byte-item", pre=[], script="82", stack=["cd" * 700], expect=("ok", ["cd" * 700, "bc02"]), fl=""),
+        dict(label="arg:5000-byte-item", pre=[], script="61", stack=["01", "ef" * 5000], expect=("ok", ["01", "ef" * 5000]), fl=""),
         dict(label="arg:reverse", pre=[], script="51", stack=["@reverse(0x010203)"], expect=("ok", ["030201", "01"]), fl=""),
         dict(label="arg:base58chkdec", pre=[], script="51", stack=["@base58chkdec(1BgGZ9tcN4rm9KBzDn7KprQz87SZ26SAMH)"], expect=("ok", ["00751e76e8199196d454941c45d1b3a323f1433bd6", "01"]), fl=""),
     ]
